@@ -148,6 +148,32 @@ func (vc *VC) Generate() (err error) {
 					}
 					return
 				}
+				// "nosite select" / "nosite send" / "nosite recv": the function never waits on a channel
+				chanOp := ""
+				switch y := x.(type) {
+				case *ssa.Select:
+					chanOp = "select"
+				case *ssa.Send:
+					chanOp = "send"
+				case *ssa.UnOp:
+					if y.Op == token.ARROW {
+						chanOp = "recv"
+					}
+				}
+				if chanOp != "" {
+					if chanOp == ns.Site {
+						b := x.Block()
+						vc.cur = nil
+						o := vc.oblige("nosite", ns.Site, "false", mergeTags(ns.Tags, vc.tagsOfFunc()), x.Pos(), ns)
+						o.Reach = "true"
+						if b.Parent() == fn {
+							if r := vc.reach[b]; r != "" {
+								o.Reach = r
+							}
+						}
+					}
+					return
+				}
 				ci, ok := x.(ssa.CallInstruction)
 				if !ok {
 					return
@@ -158,7 +184,7 @@ func (vc *VC) Generate() (err error) {
 				} else {
 					name, _ = vc.calleeName(ci.Common())
 				}
-				if name == ns.Site || matchCallee(name, ns.Site) {
+				if name == ns.Site || matchCallee(name, ns.Site) || matchCalleeGlob(name, ns.Site) {
 					b := x.Block()
 					vc.cur = nil
 					o := vc.oblige("nosite", ns.Site, "false", mergeTags(ns.Tags, vc.tagsOfFunc()), x.Pos(), ns)
@@ -979,4 +1005,27 @@ func (vc *VC) objModKeyStatic(m string, fn *ssa.Function, sig *types.Signature) 
 		}
 	}
 	return "", false
+}
+
+// matchCalleeGlob: "nosite strings.*", "nosite (*Regexp).*": every function (method) of the package (type).
+func matchCalleeGlob(canon, pat string) bool {
+	if !strings.HasSuffix(pat, "*") || strings.HasPrefix(pat, "store:") || strings.HasPrefix(canon, "$dyn") {
+		return false
+	}
+	pre := strings.TrimSuffix(pat, "*")
+	if pre == "" {
+		return false
+	}
+	for from := 0; from < len(canon); {
+		i := strings.Index(canon[from:], pre)
+		if i < 0 {
+			return false
+		}
+		i += from
+		if (i == 0 || canon[i-1] == '.' || canon[i-1] == '/' || canon[i-1] == ':') && !strings.Contains(canon[i+len(pre):], "/") {
+			return true
+		}
+		from = i + 1
+	}
+	return false
 }
